@@ -12,3 +12,27 @@ func VerifSetNext(v uint32) { atomic.StoreUint32(&next, v) }
 
 // VerifUnique returns the process-wide random word of message ids.
 func VerifUnique() uint32 { return unique }
+
+// VerifPair is one stored (filter, subscriber) pair of the trie.
+type VerifPair struct {
+	Ssid []uint32
+	Sub  uint32 // key of the subscriber in message.Subscribers (hash of its id)
+}
+
+// VerifDump returns the number of nodes of the trie and every stored pair.
+func (t *Trie) VerifDump() (nodes int, pairs []VerifPair) {
+	t.RLock()
+	defer t.RUnlock()
+	var walk func(n *node, path []uint32)
+	walk = func(n *node, path []uint32) {
+		nodes++
+		for k := range n.subs {
+			pairs = append(pairs, VerifPair{Ssid: append([]uint32{}, path...), Sub: k})
+		}
+		for w, c := range n.children {
+			walk(c, append(append([]uint32{}, path...), w))
+		}
+	}
+	walk(t.root, nil)
+	return
+}
